@@ -3,50 +3,49 @@ import Mathlib.Data.List.Perm.Subperm
 import Mathlib.Tactic.Ring
 import Mathlib.Tactic.LinearCombination
 /-
-  C18 — proofs about the model `PV/Model/GA.lean`, part 3: multivectors as dictionaries.
+  C18 — proofs about the model `PV/Model/GA.lean`, part 3: multivectors as dictionaries, over ANY
+  commutative ring `R` of coefficients.
 
-  A dictionary denotes the finitely supported function `coeff d : Nat → Int`.  `_generic_product`
+  A dictionary denotes the finitely supported function `coeff d : Nat → R`.  `_generic_product`
   is characterised through *every* linear functional `evalLin F` of its result; bilinearity and
   associativity follow from the blade cocycle.
+
+  The zero test `z : R → Bool` the code prunes with (`pymbolic.primitives.is_zero`) is a parameter:
+  * `ZSound z` (`z x → x = 0`: the test never calls a non-zero coefficient zero) is all that the
+    COEFFICIENT-LEVEL statements need (what the result denotes: formula, bilinearity,
+    associativity, (anti)automorphisms);
+  * `ZComplete z` (`x = 0 → z x`: every zero is recognised) is what the REPRESENTATION statements
+    need in addition (`Pruned`: no stored zero), and with them everything phrased with Python's
+    `==`, `bool` and `hash`, because those compare the stored dictionaries.
+  `isZeroD` (`x == 0` decides equality with zero — ints, `Fraction`s, any ring with decidable
+  equality) is both.
 -/
 namespace PV.GA
 
 /-! ## dictionaries -/
 
+section Keys
+variable {R : Type}
+
 /-- the keys of the dict, in order -/
-def keys (d : MV) : List Nat := d.map (·.1)
-
-/-- the coefficient function denoted by a dict: `d.get(k, 0)` -/
-def coeff (d : MV) (k : Nat) : Int := (dictGet d k).getD 0
-
-/-- a linear functional of the dict: `Σ_{(k, v) ∈ d} F k * v` -/
-def evalLin (F : Nat → Int) : MV → Int
-  | [] => 0
-  | (k, v) :: d => F k * v + evalLin F d
-
-/-- sum of `f` over a list -/
-def lsum {α : Type} (f : α → Int) : List α → Int
-  | [] => 0
-  | x :: xs => f x + lsum f xs
-
-/-- no stored coefficient is zero -/
-def NoZero (d : MV) : Prop := ∀ p ∈ d, p.2 ≠ 0
+def keys (d : MVOf R) : List Nat := d.map (·.1)
 
 /-- a well-formed Python dict has distinct keys -/
-def NodupKeys (d : MV) : Prop := (keys d).Nodup
+def NodupKeys (d : MVOf R) : Prop := (keys d).Nodup
 
-/-- distinct keys and no stored zero: the representation invariant under which a dict is
-    determined by the function it denotes -/
-def Pruned (d : MV) : Prop := NodupKeys d ∧ NoZero d
+@[simp] theorem keys_nil : keys ([] : MVOf R) = [] := rfl
+@[simp] theorem keys_cons (p : Nat × R) (d : MVOf R) : keys (p :: d) = p.1 :: keys d := rfl
 
-@[simp] theorem keys_nil : keys [] = [] := rfl
-@[simp] theorem keys_cons (p : Nat × Int) (d : MV) : keys (p :: d) = p.1 :: keys d := rfl
-@[simp] theorem coeff_nil (k : Nat) : coeff [] k = 0 := rfl
-theorem coeff_cons (k' : Nat) (v : Int) (d : MV) (k : Nat) :
-    coeff ((k', v) :: d) k = if k' = k then v else coeff d k := by
-  unfold coeff; simp only [dictGet]; split <;> simp
+theorem length_keys (d : MVOf R) : (keys d).length = d.length := by simp [keys]
 
-theorem dictGet_eq_none_iff (d : MV) (k : Nat) : dictGet d k = none ↔ k ∉ keys d := by
+theorem mem_keys_iff_exists {d : MVOf R} {k : Nat} : k ∈ keys d ↔ ∃ v, (k, v) ∈ d := by
+  unfold keys
+  simp only [List.mem_map]
+  constructor
+  · rintro ⟨⟨k', v⟩, h, rfl⟩; exact ⟨v, h⟩
+  · rintro ⟨v, h⟩; exact ⟨(k, v), h, rfl⟩
+
+theorem dictGet_eq_none_iff (d : MVOf R) (k : Nat) : dictGet d k = none ↔ k ∉ keys d := by
   induction d with
   | nil => simp [dictGet]
   | cons p d ih =>
@@ -61,10 +60,7 @@ theorem dictGet_eq_none_iff (d : MV) (k : Nat) : dictGet d k = none ↔ k ∉ ke
         · exact h1 h2
       · intro h1 h2; exact h1 (Or.inr h2)
 
-theorem coeff_eq_zero_of_not_mem {d : MV} {k : Nat} (h : k ∉ keys d) : coeff d k = 0 := by
-  unfold coeff; rw [(dictGet_eq_none_iff d k).2 h]; rfl
-
-theorem dictGet_mem {d : MV} {k : Nat} {v : Int} (h : dictGet d k = some v) : (k, v) ∈ d := by
+theorem dictGet_mem {d : MVOf R} {k : Nat} {v : R} (h : dictGet d k = some v) : (k, v) ∈ d := by
   induction d with
   | nil => simp [dictGet] at h
   | cons p d ih =>
@@ -76,7 +72,7 @@ theorem dictGet_mem {d : MV} {k : Nat} {v : Int} (h : dictGet d k = some v) : (k
     · simp only [hk, ↓reduceIte] at h
       exact List.mem_cons_of_mem _ (ih h)
 
-theorem dictGet_of_mem {d : MV} (hd : NodupKeys d) {k : Nat} {v : Int} (h : (k, v) ∈ d) :
+theorem dictGet_of_mem {d : MVOf R} (hd : NodupKeys d) {k : Nat} {v : R} (h : (k, v) ∈ d) :
     dictGet d k = some v := by
   induction d with
   | nil => simp at h
@@ -93,9 +89,7 @@ theorem dictGet_of_mem {d : MV} (hd : NodupKeys d) {k : Nat} {v : Int} (h : (k, 
       simp only [hk, ↓reduceIte]
       exact ih hd.2 h
 
-/-! ### the three dict updates -/
-
-theorem keys_dictDel (d : MV) (k : Nat) : keys (dictDel d k) = (keys d).erase k := by
+theorem keys_dictDel (d : MVOf R) (k : Nat) : keys (dictDel d k) = (keys d).erase k := by
   induction d with
   | nil => rfl
   | cons p d ih =>
@@ -106,7 +100,7 @@ theorem keys_dictDel (d : MV) (k : Nat) : keys (dictDel d k) = (keys d).erase k 
     · simp only [h, ↓reduceIte, keys_cons, ih]
       rw [List.erase_cons_tail]; simpa using h
 
-theorem keys_dictSet (d : MV) (k : Nat) (v : Int) :
+theorem keys_dictSet (d : MVOf R) (k : Nat) (v : R) :
     keys (dictSet d k v) = if k ∈ keys d then keys d else keys d ++ [k] := by
   induction d with
   | nil => simp [dictSet]
@@ -119,10 +113,11 @@ theorem keys_dictSet (d : MV) (k : Nat) (v : Int) :
       simp only [h, ↓reduceIte, keys_cons, ih, h', false_or]
       split <;> simp
 
-theorem nodupKeys_dictDel {d : MV} (hd : NodupKeys d) (k : Nat) : NodupKeys (dictDel d k) := by
+theorem nodupKeys_dictDel {d : MVOf R} (hd : NodupKeys d) (k : Nat) :
+    NodupKeys (dictDel d k) := by
   unfold NodupKeys at *; rw [keys_dictDel]; exact hd.erase k
 
-theorem nodupKeys_dictSet {d : MV} (hd : NodupKeys d) (k : Nat) (v : Int) :
+theorem nodupKeys_dictSet {d : MVOf R} (hd : NodupKeys d) (k : Nat) (v : R) :
     NodupKeys (dictSet d k v) := by
   unfold NodupKeys at *; rw [keys_dictSet]
   split
@@ -134,7 +129,60 @@ theorem nodupKeys_dictSet {d : MV} (hd : NodupKeys d) (k : Nat) (v : Int) :
     simp only [List.mem_singleton] at hb
     subst hb; intro e; subst e; exact h ha
 
-theorem noZero_dictDel {d : MV} (hd : NoZero d) (k : Nat) : NoZero (dictDel d k) := by
+theorem nodupKeys_nil : NodupKeys ([] : MVOf R) := List.nodup_nil
+
+end Keys
+
+section Ring
+variable {R : Type} [CommRing R]
+
+/-- the coefficient function denoted by a dict: `d.get(k, 0)` -/
+def coeff (d : MVOf R) (k : Nat) : R := (dictGet d k).getD 0
+
+/-- a linear functional of the dict: `Σ_{(k, v) ∈ d} F k * v` -/
+def evalLin (F : Nat → R) : MVOf R → R
+  | [] => 0
+  | (k, v) :: d => F k * v + evalLin F d
+
+/-- sum of `f` over a list -/
+def lsum {α : Type} (f : α → R) : List α → R
+  | [] => 0
+  | x :: xs => f x + lsum f xs
+
+/-- no stored coefficient is zero -/
+def NoZero (d : MVOf R) : Prop := ∀ p ∈ d, p.2 ≠ 0
+
+/-- distinct keys and no stored zero: the representation invariant under which a dict is
+    determined by the function it denotes -/
+def Pruned (d : MVOf R) : Prop := NodupKeys d ∧ NoZero d
+
+/-- the zero test never calls a non-zero coefficient zero -/
+def ZSound (z : R → Bool) : Prop := ∀ x, z x = true → x = 0
+
+/-- the zero test recognises every zero -/
+def ZComplete (z : R → Bool) : Prop := ∀ x, x = 0 → z x = true
+
+theorem isZeroD_sound [DecidableEq R] : ZSound (isZeroD : R → Bool) := by
+  intro x h; simpa [isZeroD] using h
+
+theorem isZeroD_complete [DecidableEq R] : ZComplete (isZeroD : R → Bool) := by
+  intro x h; simpa [isZeroD] using h
+
+@[simp] theorem coeff_nil (k : Nat) : coeff ([] : MVOf R) k = 0 := rfl
+theorem coeff_cons (k' : Nat) (v : R) (d : MVOf R) (k : Nat) :
+    coeff ((k', v) :: d) k = if k' = k then v else coeff d k := by
+  unfold coeff; simp only [dictGet]; split <;> simp
+
+theorem coeff_eq_zero_of_not_mem {d : MVOf R} {k : Nat} (h : k ∉ keys d) : coeff d k = 0 := by
+  unfold coeff; rw [(dictGet_eq_none_iff d k).2 h]; rfl
+
+theorem coeff_of_mem {d : MVOf R} (hd : NodupKeys d) {k : Nat} {v : R} (h : (k, v) ∈ d) :
+    coeff d k = v := by
+  unfold coeff; rw [dictGet_of_mem hd h]; rfl
+
+/-! ### the three dict updates -/
+
+theorem noZero_dictDel {d : MVOf R} (hd : NoZero d) (k : Nat) : NoZero (dictDel d k) := by
   induction d with
   | nil => exact hd
   | cons p d ih =>
@@ -148,7 +196,7 @@ theorem noZero_dictDel {d : MV} (hd : NoZero d) (k : Nat) : NoZero (dictDel d k)
       · subst hq; exact hd _ List.mem_cons_self
       · exact ih hd' q hq
 
-theorem noZero_dictSet {d : MV} (hd : NoZero d) (k : Nat) {v : Int} (hv : v ≠ 0) :
+theorem noZero_dictSet {d : MVOf R} (hd : NoZero d) (k : Nat) {v : R} (hv : v ≠ 0) :
     NoZero (dictSet d k v) := by
   induction d with
   | nil => intro q hq; simp [dictSet] at hq; subst hq; exact hv
@@ -166,7 +214,7 @@ theorem noZero_dictSet {d : MV} (hd : NoZero d) (k : Nat) {v : Int} (hv : v ≠ 
       · subst hq; exact hd _ List.mem_cons_self
       · exact ih hd' q hq
 
-theorem evalLin_dictDel (F : Nat → Int) (d : MV) (k : Nat) :
+theorem evalLin_dictDel (F : Nat → R) (d : MVOf R) (k : Nat) :
     evalLin F (dictDel d k) = evalLin F d - F k * coeff d k := by
   induction d with
   | nil => simp [dictDel, evalLin]
@@ -177,7 +225,7 @@ theorem evalLin_dictDel (F : Nat → Int) (d : MV) (k : Nat) :
     · subst h; simp [evalLin]
     · simp only [h, ↓reduceIte, evalLin, ih]; ring
 
-theorem evalLin_dictSet (F : Nat → Int) (d : MV) (k : Nat) (v : Int) :
+theorem evalLin_dictSet (F : Nat → R) (d : MVOf R) (k : Nat) (v : R) :
     evalLin F (dictSet d k v) = evalLin F d - F k * coeff d k + F k * v := by
   induction d with
   | nil => simp [dictSet, evalLin]
@@ -188,40 +236,39 @@ theorem evalLin_dictSet (F : Nat → Int) (d : MV) (k : Nat) (v : Int) :
     · subst h; simp [evalLin]; ring
     · simp only [h, ↓reduceIte, evalLin, ih]; ring
 
-/-- the accumulate-and-prune step adds `coeff` at `bits`, seen through any linear functional -/
-theorem evalLin_dictAccum (F : Nat → Int) (d : MV) (k : Nat) (c : Int) :
-    evalLin F (dictAccum d k c) = evalLin F d + F k * c := by
-  unfold dictAccum
+/-- the accumulate-and-prune step adds `coeff` at `bits`, seen through any linear functional;
+    needs only a SOUND zero test -/
+theorem evalLin_dictAccumZ {z : R → Bool} (hz : ZSound z) (F : Nat → R) (d : MVOf R) (k : Nat)
+    (c : R) : evalLin F (dictAccumZ z d k c) = evalLin F d + F k * c := by
+  unfold dictAccumZ
   simp only
   split
   · next h =>
     rw [evalLin_dictDel]
-    have : coeff d k = -c := by unfold coeff; omega
+    have h0 := hz _ h
+    have : coeff d k = -c := by unfold coeff; exact eq_neg_of_add_eq_zero_left h0
     rw [this]; ring
   · rw [evalLin_dictSet]; unfold coeff; ring
 
-theorem nodupKeys_dictAccum {d : MV} (hd : NodupKeys d) (k : Nat) (c : Int) :
-    NodupKeys (dictAccum d k c) := by
-  unfold dictAccum; simp only
+theorem nodupKeys_dictAccumZ (z : R → Bool) {d : MVOf R} (hd : NodupKeys d) (k : Nat) (c : R) :
+    NodupKeys (dictAccumZ z d k c) := by
+  unfold dictAccumZ; simp only
   split
   · exact nodupKeys_dictDel hd k
   · exact nodupKeys_dictSet hd k _
 
-theorem noZero_dictAccum {d : MV} (hd : NoZero d) (k : Nat) (c : Int) :
-    NoZero (dictAccum d k c) := by
-  unfold dictAccum; simp only
+/-- no zero is ever stored — needs a COMPLETE zero test -/
+theorem noZero_dictAccumZ {z : R → Bool} (hc : ZComplete z) {d : MVOf R} (hd : NoZero d) (k : Nat)
+    (c : R) : NoZero (dictAccumZ z d k c) := by
+  unfold dictAccumZ; simp only
   split
   · exact noZero_dictDel hd k
-  · next h => exact noZero_dictSet hd k h
+  · next h => exact noZero_dictSet hd k (fun e => h (hc _ e))
 
-theorem pruned_dictAccum {d : MV} (hd : Pruned d) (k : Nat) (c : Int) :
-    Pruned (dictAccum d k c) :=
-  ⟨nodupKeys_dictAccum hd.1 k c, noZero_dictAccum hd.2 k c⟩
-
-theorem pruned_nil : Pruned [] := ⟨List.nodup_nil, fun _ h => by simp at h⟩
+theorem pruned_nil : Pruned ([] : MVOf R) := ⟨List.nodup_nil, fun _ h => by simp at h⟩
 
 /-- with distinct keys, the coefficient at `k` is the linear functional "indicator of `k`" -/
-theorem coeff_eq_evalLin {d : MV} (hd : NodupKeys d) (k : Nat) :
+theorem coeff_eq_evalLin {d : MVOf R} (hd : NodupKeys d) (k : Nat) :
     coeff d k = evalLin (fun m => if m = k then 1 else 0) d := by
   induction d with
   | nil => rfl
@@ -234,13 +281,12 @@ theorem coeff_eq_evalLin {d : MV} (hd : NodupKeys d) (k : Nat) :
     · subst h; simp [coeff_eq_zero_of_not_mem hd.1]
     · simp [h]
 
-
 /-! ### list sums -/
 
 section lsum
 variable {α : Type}
 
-theorem lsum_congr {f g : α → Int} (l : List α) (h : ∀ x ∈ l, f x = g x) :
+theorem lsum_congr {f g : α → R} (l : List α) (h : ∀ x ∈ l, f x = g x) :
     lsum f l = lsum g l := by
   induction l with
   | nil => rfl
@@ -248,115 +294,168 @@ theorem lsum_congr {f g : α → Int} (l : List α) (h : ∀ x ∈ l, f x = g x)
     simp only [lsum]
     rw [h x List.mem_cons_self, ih fun y hy => h y (List.mem_cons_of_mem _ hy)]
 
-theorem lsum_add (f g : α → Int) (l : List α) :
+theorem lsum_add (f g : α → R) (l : List α) :
     lsum (fun x => f x + g x) l = lsum f l + lsum g l := by
   induction l with
-  | nil => rfl
+  | nil => simp [lsum]
   | cons x xs ih => simp only [lsum, ih]; ring
 
-theorem lsum_mul_left (c : Int) (f : α → Int) (l : List α) :
+theorem lsum_mul_left (c : R) (f : α → R) (l : List α) :
     lsum (fun x => c * f x) l = c * lsum f l := by
   induction l with
   | nil => simp [lsum]
   | cons x xs ih => simp only [lsum, ih]; ring
 
-theorem lsum_mul_right (c : Int) (f : α → Int) (l : List α) :
+theorem lsum_mul_right (c : R) (f : α → R) (l : List α) :
     lsum (fun x => f x * c) l = lsum f l * c := by
   induction l with
   | nil => simp [lsum]
   | cons x xs ih => simp only [lsum, ih]; ring
 
-theorem lsum_zero (l : List α) : lsum (fun _ => (0 : Int)) l = 0 := by
+theorem lsum_zero (l : List α) : lsum (fun _ => (0 : R)) l = 0 := by
   induction l with
   | nil => rfl
   | cons x xs ih => simp [lsum, ih]
 
-theorem lsum_append (f : α → Int) (l₁ l₂ : List α) :
+theorem lsum_eq_zero {f : α → R} (l : List α) (h : ∀ x ∈ l, f x = 0) : lsum f l = 0 := by
+  rw [lsum_congr l h, lsum_zero]
+
+theorem lsum_append (f : α → R) (l₁ l₂ : List α) :
     lsum f (l₁ ++ l₂) = lsum f l₁ + lsum f l₂ := by
   induction l₁ with
   | nil => simp [lsum]
   | cons x xs ih => simp only [List.cons_append, lsum, ih]; ring
 
+theorem lsum_map {β : Type} (f : β → R) (h : α → β) (l : List α) :
+    lsum f (l.map h) = lsum (fun x => f (h x)) l := by
+  induction l with
+  | nil => rfl
+  | cons x xs ih => simp only [List.map_cons, lsum, ih]
+
+theorem lsum_comm {β : Type} (f : α → β → R) (l₁ : List α) (l₂ : List β) :
+    lsum (fun x => lsum (fun y => f x y) l₂) l₁ = lsum (fun y => lsum (fun x => f x y) l₁) l₂ := by
+  induction l₁ with
+  | nil => simp [lsum, lsum_zero]
+  | cons x xs ih => simp only [lsum, ih, lsum_add]
+
+theorem lsum_filter (f : α → R) (p : α → Bool) (l : List α) :
+    lsum f (l.filter p) = lsum (fun x => if p x then f x else 0) l := by
+  induction l with
+  | nil => rfl
+  | cons x xs ih =>
+    rw [List.filter_cons]
+    split <;> simp_all [lsum]
+
 end lsum
 
-theorem evalLin_eq_lsum (F : Nat → Int) (d : MV) :
+theorem evalLin_eq_lsum (F : Nat → R) (d : MVOf R) :
     evalLin F d = lsum (fun p => F p.1 * p.2) d := by
   induction d with
   | nil => rfl
   | cons p d ih => obtain ⟨k, v⟩ := p; simp only [evalLin, lsum, ih]
 
+/-- with distinct keys, summing an indicator of the key over the items picks the coefficient -/
+theorem lsum_key_ind {d : MVOf R} (hd : NodupKeys d) (k : Nat) (G : R → R) (hG : G 0 = 0) :
+    lsum (fun p : Nat × R => if p.1 = k then G p.2 else 0) d = G (coeff d k) := by
+  induction d with
+  | nil => simp [lsum, hG]
+  | cons p d ih =>
+    obtain ⟨k', v'⟩ := p
+    unfold NodupKeys at hd
+    simp only [keys_cons, List.nodup_cons] at hd
+    rw [lsum, ih hd.2, coeff_cons]
+    by_cases h : k' = k
+    · subst h; simp [coeff_eq_zero_of_not_mem hd.1, hG]
+    · simp [h]
+
 /-! ## `_generic_product` -/
 
 /-- the coefficient contributed by the pair of terms `(sbits, scoeff)`, `(obits, ocoeff)` -/
-def termCoeff (w : Nat → Nat → Int) (s o : Nat × Int) : Int :=
-  w s.1 o.1 * reorderSign s.1 o.1 * s.2 * o.2
+def termCoeff (w : Nat → Nat → R) (s o : Nat × R) : R :=
+  w s.1 o.1 * reorderSignR s.1 o.1 * s.2 * o.2
 
 /-- body of the inner `for` loop -/
-def innerStep (w : Nat → Nat → Int) (s : Nat × Int) (acc : MV) (o : Nat × Int) : MV :=
-  if w s.1 o.1 = 0 then acc else dictAccum acc (s.1 ^^^ o.1) (termCoeff w s o)
+def innerStep (z : R → Bool) (w : Nat → Nat → R) (s : Nat × R) (acc : MVOf R) (o : Nat × R) :
+    MVOf R :=
+  if z (w s.1 o.1) then acc else dictAccumZ z acc (s.1 ^^^ o.1) (termCoeff w s o)
 
-theorem genericProduct_eq_foldl (w : Nat → Nat → Int) (a b : MV) :
-    genericProduct w a b = a.foldl (fun acc s => b.foldl (innerStep w s) acc) [] := rfl
+theorem genericProductZ_eq_foldl (z : R → Bool) (w : Nat → Nat → R) (a b : MVOf R) :
+    genericProductZ z w a b = a.foldl (fun acc s => b.foldl (innerStep z w s) acc) [] := rfl
 
-theorem inner_spec (w : Nat → Nat → Int) (s : Nat × Int) (b : MV) :
-    ∀ acc : MV, Pruned acc →
-      Pruned (b.foldl (innerStep w s) acc) ∧
-      ∀ F, evalLin F (b.foldl (innerStep w s) acc)
-        = evalLin F acc + lsum (fun o => F (s.1 ^^^ o.1) * termCoeff w s o) b := by
+theorem inner_spec (z : R → Bool) (w : Nat → Nat → R) (s : Nat × R) (b : MVOf R) :
+    ∀ acc : MVOf R, NodupKeys acc →
+      NodupKeys (b.foldl (innerStep z w s) acc) ∧
+      (ZSound z → ∀ F, evalLin F (b.foldl (innerStep z w s) acc)
+        = evalLin F acc + lsum (fun o => F (s.1 ^^^ o.1) * termCoeff w s o) b) ∧
+      (ZComplete z → NoZero acc → NoZero (b.foldl (innerStep z w s) acc)) := by
   induction b with
-  | nil => intro acc h; exact ⟨h, fun F => by simp [lsum]⟩
+  | nil => intro acc h; exact ⟨h, fun _ F => by simp [lsum], fun _ h => h⟩
   | cons o b ih =>
     intro acc hacc
     simp only [List.foldl_cons, lsum]
-    have hstep : Pruned (innerStep w s acc o) ∧
-        ∀ F, evalLin F (innerStep w s acc o)
-          = evalLin F acc + F (s.1 ^^^ o.1) * termCoeff w s o := by
+    have hstep : NodupKeys (innerStep z w s acc o) ∧
+        (ZSound z → ∀ F, evalLin F (innerStep z w s acc o)
+          = evalLin F acc + F (s.1 ^^^ o.1) * termCoeff w s o) ∧
+        (ZComplete z → NoZero acc → NoZero (innerStep z w s acc o)) := by
       unfold innerStep
       split
       · next h0 =>
-        refine ⟨hacc, fun F => ?_⟩
-        simp [termCoeff, h0]
-      · exact ⟨pruned_dictAccum hacc _ _, fun F => evalLin_dictAccum F _ _ _⟩
-    obtain ⟨h1, h2⟩ := ih _ hstep.1
-    refine ⟨h1, fun F => ?_⟩
-    rw [h2 F, hstep.2 F]; ring
+        refine ⟨hacc, fun hz F => ?_, fun _ h => h⟩
+        simp [termCoeff, hz _ h0]
+      · exact ⟨nodupKeys_dictAccumZ z hacc _ _, fun hz F => evalLin_dictAccumZ hz F _ _ _,
+          fun hc h => noZero_dictAccumZ hc h _ _⟩
+    obtain ⟨h1, h2, h3⟩ := ih _ hstep.1
+    refine ⟨h1, fun hz F => ?_, fun hc h => h3 hc (hstep.2.2 hc h)⟩
+    rw [h2 hz F, hstep.2.1 hz F]; ring
 
-theorem outer_spec (w : Nat → Nat → Int) (b : MV) (a : MV) :
-    ∀ acc : MV, Pruned acc →
-      Pruned (a.foldl (fun acc s => b.foldl (innerStep w s) acc) acc) ∧
-      ∀ F, evalLin F (a.foldl (fun acc s => b.foldl (innerStep w s) acc) acc)
+theorem outer_spec (z : R → Bool) (w : Nat → Nat → R) (b : MVOf R) (a : MVOf R) :
+    ∀ acc : MVOf R, NodupKeys acc →
+      NodupKeys (a.foldl (fun acc s => b.foldl (innerStep z w s) acc) acc) ∧
+      (ZSound z → ∀ F, evalLin F (a.foldl (fun acc s => b.foldl (innerStep z w s) acc) acc)
         = evalLin F acc
-          + lsum (fun s => lsum (fun o => F (s.1 ^^^ o.1) * termCoeff w s o) b) a := by
+          + lsum (fun s => lsum (fun o => F (s.1 ^^^ o.1) * termCoeff w s o) b) a) ∧
+      (ZComplete z → NoZero acc →
+        NoZero (a.foldl (fun acc s => b.foldl (innerStep z w s) acc) acc)) := by
   induction a with
-  | nil => intro acc h; exact ⟨h, fun F => by simp [lsum]⟩
+  | nil => intro acc h; exact ⟨h, fun _ F => by simp [lsum], fun _ h => h⟩
   | cons s a ih =>
     intro acc hacc
     simp only [List.foldl_cons, lsum]
-    obtain ⟨h1, h2⟩ := inner_spec w s b acc hacc
-    obtain ⟨h3, h4⟩ := ih _ h1
-    refine ⟨h3, fun F => ?_⟩
-    rw [h4 F, h2 F]; ring
+    obtain ⟨h1, h2, h3⟩ := inner_spec z w s b acc hacc
+    obtain ⟨h4, h5, h6⟩ := ih _ h1
+    refine ⟨h4, fun hz F => ?_, fun hc h => h6 hc (h3 hc h)⟩
+    rw [h5 hz F, h2 hz F]; ring
 
-/-- the result of `_generic_product` never stores a zero and has distinct keys — whatever the
+/-- the result of `_generic_product` has distinct keys — whatever the operands and the zero test -/
+theorem genericProductZ_nodup (z : R → Bool) (w : Nat → Nat → R) (a b : MVOf R) :
+    NodupKeys (genericProductZ z w a b) := by
+  rw [genericProductZ_eq_foldl]; exact (outer_spec z w b a [] nodupKeys_nil).1
+
+/-- with a complete zero test the result of `_generic_product` never stores a zero — whatever the
     operands look like -/
-theorem genericProduct_pruned (w : Nat → Nat → Int) (a b : MV) :
-    Pruned (genericProduct w a b) := by
-  rw [genericProduct_eq_foldl]; exact (outer_spec w b a [] pruned_nil).1
+theorem genericProductZ_pruned {z : R → Bool} (hc : ZComplete z) (w : Nat → Nat → R)
+    (a b : MVOf R) : Pruned (genericProductZ z w a b) := by
+  refine ⟨genericProductZ_nodup z w a b, ?_⟩
+  rw [genericProductZ_eq_foldl]
+  exact (outer_spec z w b a [] nodupKeys_nil).2.2 hc pruned_nil.2
 
-/-- every linear functional of the product is the double sum over the operand terms -/
-theorem evalLin_genericProduct (w : Nat → Nat → Int) (a b : MV) (F : Nat → Int) :
-    evalLin F (genericProduct w a b)
+/-- every linear functional of the product is the double sum over the operand terms
+    (sound zero test) -/
+theorem evalLin_genericProductZ {z : R → Bool} (hz : ZSound z) (w : Nat → Nat → R) (a b : MVOf R)
+    (F : Nat → R) :
+    evalLin F (genericProductZ z w a b)
       = lsum (fun s => lsum (fun o => F (s.1 ^^^ o.1) * termCoeff w s o) b) a := by
-  have := (outer_spec w b a [] pruned_nil).2 F
-  rw [genericProduct_eq_foldl, this]; simp [evalLin]
+  have := (outer_spec z w b a [] nodupKeys_nil).2.1 hz F
+  rw [genericProductZ_eq_foldl, this]; simp [evalLin]
 
 /-- (h) the coefficient of blade `k` in `_generic_product`: the textbook formula
-    `Σ_{s ∈ a} Σ_{o ∈ b} [s ⊕ o = k] w(s,o) σ(s,o) a_s b_o` -/
-theorem coeff_genericProduct (w : Nat → Nat → Int) (a b : MV) (k : Nat) :
-    coeff (genericProduct w a b) k
+    `Σ_{s ∈ a} Σ_{o ∈ b} [s ⊕ o = k] w(s,o) σ(s,o) a_s b_o` (sound zero test) -/
+theorem coeff_genericProductZ {z : R → Bool} (hz : ZSound z) (w : Nat → Nat → R) (a b : MVOf R)
+    (k : Nat) :
+    coeff (genericProductZ z w a b) k
       = lsum (fun s => lsum (fun o =>
-          if s.1 ^^^ o.1 = k then w s.1 o.1 * reorderSign s.1 o.1 * s.2 * o.2 else 0) b) a := by
-  rw [coeff_eq_evalLin (genericProduct_pruned w a b).1, evalLin_genericProduct]
+          if s.1 ^^^ o.1 = k then w s.1 o.1 * reorderSignR s.1 o.1 * s.2 * o.2 else 0) b) a := by
+  rw [coeff_eq_evalLin (genericProductZ_nodup z w a b), evalLin_genericProductZ hz]
   apply lsum_congr; intro s _
   apply lsum_congr; intro o _
   unfold termCoeff
@@ -365,14 +464,7 @@ theorem coeff_genericProduct (w : Nat → Nat → Int) (a b : MV) (k : Nat) :
 
 /-! ## Python equality of multivectors -/
 
-theorem mem_keys_iff_exists {d : MV} {k : Nat} : k ∈ keys d ↔ ∃ v, (k, v) ∈ d := by
-  unfold keys
-  simp only [List.mem_map]
-  constructor
-  · rintro ⟨⟨k', v⟩, h, rfl⟩; exact ⟨v, h⟩
-  · rintro ⟨v, h⟩; exact ⟨(k, v), h, rfl⟩
-
-theorem mem_keys_iff_coeff_ne_zero {d : MV} (hd : Pruned d) (k : Nat) :
+theorem mem_keys_iff_coeff_ne_zero {d : MVOf R} (hd : Pruned d) (k : Nat) :
     k ∈ keys d ↔ coeff d k ≠ 0 := by
   constructor
   · intro h
@@ -381,12 +473,10 @@ theorem mem_keys_iff_coeff_ne_zero {d : MV} (hd : Pruned d) (k : Nat) :
     unfold coeff; rw [this]; exact hd.2 _ hv
   · intro h; by_contra hk; exact h (coeff_eq_zero_of_not_mem hk)
 
-theorem length_keys (d : MV) : (keys d).length = d.length := by simp [keys]
-
 /-- `eq_iff_coeffwise`: on pruned dicts (distinct keys, no stored zero) Python's `==` is equality
-    of the denoted coefficient functions.  Without `Pruned` this FAILS: see
-    `PV.C18.eq_scalar_zero_discrepancy`. -/
-theorem mvEq_iff_coeffwise {a b : MV} (ha : Pruned a) (hb : Pruned b) :
+    of the denoted coefficient functions.  Without `Pruned` this FAILS
+    (`PV.C18.eq_needs_complete_zero_test_cex`). -/
+theorem mvEq_iff_coeffwise [DecidableEq R] {a b : MVOf R} (ha : Pruned a) (hb : Pruned b) :
     mvEq a b = true ↔ ∀ k, coeff a k = coeff b k := by
   unfold mvEq dictEq
   simp only [Bool.and_eq_true, beq_iff_eq, List.all_eq_true]
@@ -427,39 +517,43 @@ theorem mvEq_iff_coeffwise {a b : MV} (ha : Pruned a) (hb : Pruned b) :
 
 /-- the 2-cocycle condition on a blade weight (including the reordering sign) under which
     `_generic_product` is associative -/
-def Cocycle (w : Nat → Nat → Int) : Prop :=
+def Cocycle (w : Nat → Nat → R) : Prop :=
   ∀ a b c : Nat,
-    (w a b * reorderSign a b) * (w (a ^^^ b) c * reorderSign (a ^^^ b) c)
-      = (w b c * reorderSign b c) * (w a (b ^^^ c) * reorderSign a (b ^^^ c))
+    (w a b * reorderSignR a b) * (w (a ^^^ b) c * reorderSignR (a ^^^ b) c)
+      = (w b c * reorderSignR b c) * (w a (b ^^^ c) * reorderSignR a (b ^^^ c))
 
-theorem coeff_genericProduct_left (w : Nat → Nat → Int) (x c : MV) (k : Nat) :
-    coeff (genericProduct w x c) k
-      = evalLin (fun m => lsum (fun t : Nat × Int =>
-          if m ^^^ t.1 = k then w m t.1 * reorderSign m t.1 * t.2 else 0) c) x := by
-  rw [coeff_genericProduct, evalLin_eq_lsum]
+theorem coeff_genericProductZ_left {z : R → Bool} (hz : ZSound z) (w : Nat → Nat → R)
+    (x c : MVOf R) (k : Nat) :
+    coeff (genericProductZ z w x c) k
+      = evalLin (fun m => lsum (fun t : Nat × R =>
+          if m ^^^ t.1 = k then w m t.1 * reorderSignR m t.1 * t.2 else 0) c) x := by
+  rw [coeff_genericProductZ hz, evalLin_eq_lsum]
   apply lsum_congr; intro s _
   rw [← lsum_mul_right]
   apply lsum_congr; intro t _
   split <;> ring
 
-theorem coeff_genericProduct_right (w : Nat → Nat → Int) (a y : MV) (k : Nat) :
-    coeff (genericProduct w a y) k
-      = lsum (fun s : Nat × Int => evalLin (fun m =>
-          if s.1 ^^^ m = k then w s.1 m * reorderSign s.1 m * s.2 else 0) y) a := by
-  rw [coeff_genericProduct]
+theorem coeff_genericProductZ_right {z : R → Bool} (hz : ZSound z) (w : Nat → Nat → R)
+    (a y : MVOf R) (k : Nat) :
+    coeff (genericProductZ z w a y) k
+      = lsum (fun s : Nat × R => evalLin (fun m =>
+          if s.1 ^^^ m = k then w s.1 m * reorderSignR s.1 m * s.2 else 0) y) a := by
+  rw [coeff_genericProductZ hz]
   apply lsum_congr; intro s _
   rw [evalLin_eq_lsum]
   apply lsum_congr; intro t _
   split <;> ring
 
 /-- (h) associativity of `_generic_product` for every weight satisfying the blade cocycle:
-    both bracketings denote the same coefficient function.  No hypothesis on the operands. -/
-theorem coeff_genericProduct_assoc {w : Nat → Nat → Int} (hw : Cocycle w) (a b c : MV) (k : Nat) :
-    coeff (genericProduct w (genericProduct w a b) c) k
-      = coeff (genericProduct w a (genericProduct w b c)) k := by
-  rw [coeff_genericProduct_left, evalLin_genericProduct, coeff_genericProduct_right]
+    both bracketings denote the same coefficient function.  No hypothesis on the operands; the
+    zero test only has to be sound. -/
+theorem coeff_genericProductZ_assoc {z : R → Bool} (hz : ZSound z) {w : Nat → Nat → R}
+    (hw : Cocycle w) (a b c : MVOf R) (k : Nat) :
+    coeff (genericProductZ z w (genericProductZ z w a b) c) k
+      = coeff (genericProductZ z w a (genericProductZ z w b c)) k := by
+  rw [coeff_genericProductZ_left hz, evalLin_genericProductZ hz, coeff_genericProductZ_right hz]
   apply lsum_congr; intro s _
-  rw [evalLin_genericProduct]
+  rw [evalLin_genericProductZ hz]
   apply lsum_congr; intro o _
   rw [← lsum_mul_right]
   apply lsum_congr; intro t _
@@ -470,26 +564,13 @@ theorem coeff_genericProduct_assoc {w : Nat → Nat → Int} (hw : Cocycle w) (a
   · linear_combination (s.2 * o.2 * t.2) * this
   · simp
 
-/-- (h) associativity, as Python's `==` sees it -/
-theorem genericProduct_assoc {w : Nat → Nat → Int} (hw : Cocycle w) (a b c : MV) :
-    mvEq (genericProduct w (genericProduct w a b) c) (genericProduct w a (genericProduct w b c))
-      = true :=
-  (mvEq_iff_coeffwise (genericProduct_pruned _ _ _) (genericProduct_pruned _ _ _)).2
-    (coeff_genericProduct_assoc hw a b c)
-
-theorem cocycle_wGeometric (g : Nat → Int) : Cocycle (wGeometric g) :=
-  fun a b c => blade_cocycle_int g a b c
-
-/-- (h) `(A * B) * C == A * (B * C)` for the geometric product as coded, any diagonal metric, any
-    multivectors, any dimension -/
-theorem mvMul_assoc (g : Nat → Int) (a b c : MV) :
-    mvEq (mvMul g (mvMul g a b) c) (mvMul g a (mvMul g b c)) = true :=
-  genericProduct_assoc (cocycle_wGeometric g) a b c
+theorem cocycle_wGeometric (g : Nat → R) : Cocycle (wGeometric g) :=
+  fun a b c => blade_cocycle_R g a b c
 
 
 /-! ## (h) bilinearity -/
 
-theorem lsum_range_ind (c : Nat → Int) (k0 : Nat) : ∀ N, k0 < N →
+theorem lsum_range_ind (c : Nat → R) (k0 : Nat) : ∀ N, k0 < N →
     lsum (fun k => if k0 = k then c k else 0) (List.range N) = c k0 := by
   intro N
   induction N with
@@ -504,7 +585,7 @@ theorem lsum_range_ind (c : Nat → Int) (k0 : Nat) : ∀ N, k0 < N →
     · have hk' : k0 = n := by omega
       subst hk'
       have e : lsum (fun k => if k0 = k then c k else 0) (List.range k0)
-          = lsum (fun _ => (0 : Int)) (List.range k0) := by
+          = lsum (fun _ => (0 : R)) (List.range k0) := by
         apply lsum_congr
         intro x hx
         have : x < k0 := List.mem_range.1 hx
@@ -513,7 +594,7 @@ theorem lsum_range_ind (c : Nat → Int) (k0 : Nat) : ∀ N, k0 < N →
       rw [e, lsum_zero]; simp [lsum]
 
 /-- with distinct keys, a linear functional of a dict only depends on the coefficient function -/
-theorem evalLin_eq_range (H : Nat → Int) (N : Nat) : ∀ d : MV, NodupKeys d →
+theorem evalLin_eq_range (H : Nat → R) (N : Nat) : ∀ d : MVOf R, NodupKeys d →
     (∀ k ∈ keys d, k < N) →
     evalLin H d = lsum (fun k => H k * coeff d k) (List.range N) := by
   intro d
@@ -549,12 +630,12 @@ theorem lt_keyBound {l : List Nat} {k : Nat} (h : k ∈ l) : k < keyBound l := b
     · have := ih h; omega
 
 /-- linear functionals respect linear combinations of the denoted functions -/
-theorem evalLin_lin (H : Nat → Int) {a a1 a2 : MV} (x y : Int)
+theorem evalLin_lin (H : Nat → R) {a a1 a2 : MVOf R} (x y : R)
     (ha : NodupKeys a) (ha1 : NodupKeys a1) (ha2 : NodupKeys a2)
     (h : ∀ k, coeff a k = x * coeff a1 k + y * coeff a2 k) :
     evalLin H a = x * evalLin H a1 + y * evalLin H a2 := by
   let N := keyBound (keys a ++ keys a1 ++ keys a2)
-  have hb : ∀ (d : MV), (∀ k ∈ keys d, k ∈ keys a ++ keys a1 ++ keys a2) →
+  have hb : ∀ (d : MVOf R), (∀ k ∈ keys d, k ∈ keys a ++ keys a1 ++ keys a2) →
       ∀ k ∈ keys d, k < N := fun d hd k hk => lt_keyBound (hd k hk)
   rw [evalLin_eq_range H N a ha (hb a (by intro k hk; simp [hk])),
     evalLin_eq_range H N a1 ha1 (hb a1 (by intro k hk; simp [hk])),
@@ -563,45 +644,58 @@ theorem evalLin_lin (H : Nat → Int) {a a1 a2 : MV} (x y : Int)
   apply lsum_congr; intro k _
   rw [h k]; ring
 
-theorem evalLin_ext (H : Nat → Int) {a b : MV} (ha : NodupKeys a) (hb : NodupKeys b)
+theorem evalLin_ext (H : Nat → R) {a b : MVOf R} (ha : NodupKeys a) (hb : NodupKeys b)
     (h : ∀ k, coeff a k = coeff b k) : evalLin H a = evalLin H b := by
   have := evalLin_lin H 1 0 ha hb hb (by intro k; rw [h k]; ring)
   rw [this]; ring
 
 /-- (h) `_generic_product` is linear in its left operand (as a function of the denoted
-    coefficient functions; any weight) -/
-theorem coeff_genericProduct_lin_left (w : Nat → Nat → Int) {a a1 a2 : MV} (x y : Int) (c : MV)
+    coefficient functions; any weight; sound zero test) -/
+theorem coeff_genericProductZ_lin_left {z : R → Bool} (hz : ZSound z) (w : Nat → Nat → R)
+    {a a1 a2 : MVOf R} (x y : R) (c : MVOf R)
     (ha : NodupKeys a) (ha1 : NodupKeys a1) (ha2 : NodupKeys a2)
     (h : ∀ k, coeff a k = x * coeff a1 k + y * coeff a2 k) (k : Nat) :
-    coeff (genericProduct w a c) k
-      = x * coeff (genericProduct w a1 c) k + y * coeff (genericProduct w a2 c) k := by
-  simp only [coeff_genericProduct_left]
+    coeff (genericProductZ z w a c) k
+      = x * coeff (genericProductZ z w a1 c) k + y * coeff (genericProductZ z w a2 c) k := by
+  simp only [coeff_genericProductZ_left hz]
   exact evalLin_lin _ x y ha ha1 ha2 h
 
 /-- (h) `_generic_product` is linear in its right operand -/
-theorem coeff_genericProduct_lin_right (w : Nat → Nat → Int) (a : MV) {c c1 c2 : MV} (x y : Int)
+theorem coeff_genericProductZ_lin_right {z : R → Bool} (hz : ZSound z) (w : Nat → Nat → R)
+    (a : MVOf R) {c c1 c2 : MVOf R} (x y : R)
     (hc : NodupKeys c) (hc1 : NodupKeys c1) (hc2 : NodupKeys c2)
     (h : ∀ k, coeff c k = x * coeff c1 k + y * coeff c2 k) (k : Nat) :
-    coeff (genericProduct w a c) k
-      = x * coeff (genericProduct w a c1) k + y * coeff (genericProduct w a c2) k := by
-  simp only [coeff_genericProduct_right]
+    coeff (genericProductZ z w a c) k
+      = x * coeff (genericProductZ z w a c1) k + y * coeff (genericProductZ z w a c2) k := by
+  simp only [coeff_genericProductZ_right hz]
   rw [← lsum_mul_left, ← lsum_mul_left, ← lsum_add]
   apply lsum_congr; intro s _
   exact evalLin_lin _ x y hc hc1 hc2 h
 
 /-- the product only depends on the functions denoted by its operands (so stored zeros and the
     order of the dict entries are irrelevant to the result up to `==`) -/
-theorem coeff_genericProduct_congr (w : Nat → Nat → Int) {a a' c c' : MV}
+theorem coeff_genericProductZ_congr {z : R → Bool} (hz : ZSound z) (w : Nat → Nat → R)
+    {a a' c c' : MVOf R}
     (ha : NodupKeys a) (ha' : NodupKeys a') (hc : NodupKeys c) (hc' : NodupKeys c')
     (h1 : ∀ k, coeff a k = coeff a' k) (h2 : ∀ k, coeff c k = coeff c' k) (k : Nat) :
-    coeff (genericProduct w a c) k = coeff (genericProduct w a' c') k := by
-  rw [coeff_genericProduct_lin_left w 1 0 c ha ha' ha' (by intro k; rw [h1 k]; ring),
-    coeff_genericProduct_lin_right w a' 1 0 hc hc' hc' (by intro k; rw [h2 k]; ring)]
+    coeff (genericProductZ z w a c) k = coeff (genericProductZ z w a' c') k := by
+  rw [coeff_genericProductZ_lin_left hz w 1 0 c ha ha' ha' (by intro k; rw [h1 k]; ring),
+    coeff_genericProductZ_lin_right hz w a' 1 0 hc hc' hc' (by intro k; rw [h2 k]; ring)]
   ring
+
+/-- the product only depends on the weights of the pairs of keys that occur -/
+theorem coeff_genericProductZ_congr_weight {z : R → Bool} (hz : ZSound z)
+    (w w' : Nat → Nat → R) (a b : MVOf R)
+    (h : ∀ s ∈ keys a, ∀ o ∈ keys b, w s o = w' s o) (k : Nat) :
+    coeff (genericProductZ z w a b) k = coeff (genericProductZ z w' a b) k := by
+  rw [coeff_genericProductZ hz, coeff_genericProductZ hz]
+  apply lsum_congr; intro s hs
+  apply lsum_congr; intro o ho
+  rw [h s.1 (List.mem_map.2 ⟨s, hs, rfl⟩) o.1 (List.mem_map.2 ⟨o, ho, rfl⟩)]
 
 /-! ### `__add__`, `__neg__` -/
 
-theorem coeff_dictSet (d : MV) (k : Nat) (v : Int) (k' : Nat) :
+theorem coeff_dictSet (d : MVOf R) (k : Nat) (v : R) (k' : Nat) :
     coeff (dictSet d k v) k' = if k = k' then v else coeff d k' := by
   induction d with
   | nil => simp [dictSet, coeff_cons]
@@ -619,38 +713,44 @@ theorem coeff_dictSet (d : MV) (k : Nat) (v : Int) (k' : Nat) :
       · simp [h2]
 
 /-- body of the loop of `__add__` -/
-def addStep (a b : MV) (acc : MV) (bits : Nat) : MV :=
-  if coeff a bits + coeff b bits = 0 then acc else dictSet acc bits (coeff a bits + coeff b bits)
+def addStep (z : R → Bool) (a b : MVOf R) (acc : MVOf R) (bits : Nat) : MVOf R :=
+  if z (coeff a bits + coeff b bits) then acc
+  else dictSet acc bits (coeff a bits + coeff b bits)
 
-theorem mvAdd_eq (a b : MV) :
-    mvAdd a b = (keys a ++ (keys b).filter fun k => (dictGet a k).isNone).foldl (addStep a b) [] :=
+theorem mvAddZ_eq (z : R → Bool) (a b : MVOf R) :
+    mvAddZ z a b
+      = (keys a ++ (keys b).filter fun k => (dictGet a k).isNone).foldl (addStep z a b) [] :=
   rfl
 
-theorem addLoop_spec (a b : MV) : ∀ (K : List Nat) (acc : MV), K.Nodup →
-    (∀ k ∈ K, k ∉ keys acc) → Pruned acc →
-    Pruned (K.foldl (addStep a b) acc) ∧
-    ∀ k, coeff (K.foldl (addStep a b) acc) k
-      = if k ∈ K then coeff a k + coeff b k else coeff acc k := by
+theorem addLoop_spec (z : R → Bool) (a b : MVOf R) : ∀ (K : List Nat) (acc : MVOf R), K.Nodup →
+    (∀ k ∈ K, k ∉ keys acc) → NodupKeys acc →
+    NodupKeys (K.foldl (addStep z a b) acc) ∧
+    (ZSound z → ∀ k, coeff (K.foldl (addStep z a b) acc) k
+      = if k ∈ K then coeff a k + coeff b k else coeff acc k) ∧
+    (ZComplete z → NoZero acc → NoZero (K.foldl (addStep z a b) acc)) := by
   intro K
   induction K with
-  | nil => intro acc _ _ h; exact ⟨h, fun k => by simp⟩
+  | nil => intro acc _ _ h; exact ⟨h, fun _ k => by simp, fun _ h => h⟩
   | cons bits K ih =>
     intro acc hK hfresh hacc
     simp only [List.nodup_cons] at hK
     have hb : bits ∉ keys acc := hfresh bits List.mem_cons_self
-    have hstep : Pruned (addStep a b acc bits) ∧ (∀ k ∈ K, k ∉ keys (addStep a b acc bits)) ∧
-        ∀ k, coeff (addStep a b acc bits) k
-          = if bits = k then coeff a k + coeff b k else coeff acc k := by
+    have hstep : NodupKeys (addStep z a b acc bits) ∧
+        (∀ k ∈ K, k ∉ keys (addStep z a b acc bits)) ∧
+        (ZSound z → ∀ k, coeff (addStep z a b acc bits) k
+          = if bits = k then coeff a k + coeff b k else coeff acc k) ∧
+        (ZComplete z → NoZero acc → NoZero (addStep z a b acc bits)) := by
       unfold addStep
       split
       · next h0 =>
-        refine ⟨hacc, fun k hk => hfresh k (List.mem_cons_of_mem _ hk), fun k => ?_⟩
+        refine ⟨hacc, fun k hk => hfresh k (List.mem_cons_of_mem _ hk), fun hz k => ?_,
+          fun _ h => h⟩
         by_cases h : bits = k
-        · subst h; simp [h0, coeff_eq_zero_of_not_mem hb]
+        · subst h; simp [hz _ h0, coeff_eq_zero_of_not_mem hb]
         · simp [h]
       · next h0 =>
-        refine ⟨⟨nodupKeys_dictSet hacc.1 _ _, noZero_dictSet hacc.2 _ h0⟩, fun k hk => ?_,
-          fun k => ?_⟩
+        refine ⟨nodupKeys_dictSet hacc _ _, fun k hk => ?_, fun _ k => ?_,
+          fun hc h => noZero_dictSet h _ (fun e => h0 (hc _ e))⟩
         · rw [keys_dictSet]
           simp only [hb, ↓reduceIte, List.mem_append, List.mem_singleton, not_or]
           refine ⟨hfresh k (List.mem_cons_of_mem _ hk), ?_⟩
@@ -659,9 +759,9 @@ theorem addLoop_spec (a b : MV) : ∀ (K : List Nat) (acc : MV), K.Nodup →
           by_cases h : bits = k
           · subst h; simp
           · simp [h]
-    obtain ⟨h1, h2⟩ := ih _ hK.2 hstep.2.1 hstep.1
-    refine ⟨h1, fun k => ?_⟩
-    rw [List.foldl_cons, h2 k, hstep.2.2 k]
+    obtain ⟨h1, h2, h3⟩ := ih _ hK.2 hstep.2.1 hstep.1
+    refine ⟨h1, fun hz k => ?_, fun hc h => h3 hc (hstep.2.2.2 hc h)⟩
+    rw [List.foldl_cons, h2 hz k, hstep.2.2.1 hz k]
     by_cases hk : k ∈ K
     · simp [hk]
     · by_cases hkb : bits = k
@@ -669,19 +769,25 @@ theorem addLoop_spec (a b : MV) : ∀ (K : List Nat) (acc : MV), K.Nodup →
       · have hkb' : ¬ k = bits := fun e => hkb e.symm
         simp [hk, hkb, hkb']
 
-/-- `__add__` returns a pruned dict denoting the pointwise sum -/
-theorem mvAdd_spec {a b : MV} (ha : NodupKeys a) (hb : NodupKeys b) :
-    Pruned (mvAdd a b) ∧ ∀ k, coeff (mvAdd a b) k = coeff a k + coeff b k := by
-  rw [mvAdd_eq]
-  have hK : (keys a ++ (keys b).filter fun k => (dictGet a k).isNone).Nodup := by
-    rw [List.nodup_append]
-    refine ⟨ha, hb.filter _, ?_⟩
-    intro x hx y hy
-    simp only [List.mem_filter, Option.isNone_iff_eq_none, dictGet_eq_none_iff] at hy
-    intro e; subst e; exact hy.2 hx
-  obtain ⟨h1, h2⟩ := addLoop_spec a b _ [] hK (by simp) pruned_nil
-  refine ⟨h1, fun k => ?_⟩
-  rw [h2 k]
+omit [CommRing R] in
+theorem mvAddZ_keys_nodup {a b : MVOf R} (ha : NodupKeys a) (hb : NodupKeys b) :
+    (keys a ++ (keys b).filter fun k => (dictGet a k).isNone).Nodup := by
+  rw [List.nodup_append]
+  refine ⟨ha, hb.filter _, ?_⟩
+  intro x hx y hy
+  simp only [List.mem_filter, Option.isNone_iff_eq_none, dictGet_eq_none_iff] at hy
+  intro e; subst e; exact hy.2 hx
+
+theorem mvAddZ_nodup (z : R → Bool) {a b : MVOf R} (ha : NodupKeys a) (hb : NodupKeys b) :
+    NodupKeys (mvAddZ z a b) := by
+  rw [mvAddZ_eq]
+  exact (addLoop_spec z a b _ [] (mvAddZ_keys_nodup ha hb) (by simp) nodupKeys_nil).1
+
+/-- `__add__` denotes the pointwise sum (sound zero test) -/
+theorem coeff_mvAddZ {z : R → Bool} (hz : ZSound z) {a b : MVOf R} (ha : NodupKeys a)
+    (hb : NodupKeys b) (k : Nat) : coeff (mvAddZ z a b) k = coeff a k + coeff b k := by
+  rw [mvAddZ_eq]
+  rw [(addLoop_spec z a b _ [] (mvAddZ_keys_nodup ha hb) (by simp) nodupKeys_nil).2.1 hz k]
   split
   · rfl
   · next hk =>
@@ -691,10 +797,21 @@ theorem mvAdd_spec {a b : MV} (ha : NodupKeys a) (hb : NodupKeys b) :
     have hkb : k ∉ keys b := fun h => hka (hk.2 h)
     simp [coeff_eq_zero_of_not_mem hka, coeff_eq_zero_of_not_mem hkb]
 
-theorem keys_mvNeg (a : MV) : keys (mvNeg a) = keys a := by
+/-- `__add__` returns a pruned dict (complete zero test) -/
+theorem mvAddZ_pruned {z : R → Bool} (hc : ZComplete z) {a b : MVOf R} (ha : NodupKeys a)
+    (hb : NodupKeys b) : Pruned (mvAddZ z a b) := by
+  refine ⟨mvAddZ_nodup z ha hb, ?_⟩
+  rw [mvAddZ_eq]
+  exact (addLoop_spec z a b _ [] (mvAddZ_keys_nodup ha hb) (by simp) nodupKeys_nil).2.2 hc
+    pruned_nil.2
+
+theorem keys_mvNeg (a : MVOf R) : keys (mvNeg a) = keys a := by
   unfold mvNeg keys; simp [Function.comp_def]
 
-theorem coeff_mvNeg (a : MV) (k : Nat) : coeff (mvNeg a) k = - coeff a k := by
+theorem nodupKeys_mvNeg {a : MVOf R} (ha : NodupKeys a) : NodupKeys (mvNeg a) := by
+  unfold NodupKeys; rw [keys_mvNeg]; exact ha
+
+theorem coeff_mvNeg (a : MVOf R) (k : Nat) : coeff (mvNeg a) k = - coeff a k := by
   induction a with
   | nil => simp [mvNeg]
   | cons p d ih =>
@@ -703,31 +820,10 @@ theorem coeff_mvNeg (a : MV) (k : Nat) : coeff (mvNeg a) k = - coeff a k := by
     rw [this, coeff_cons, coeff_cons, ih]
     split <;> rfl
 
-/-- (h) left distributivity as Python's `==` sees it:  `(A + B) * C == A * C + B * C` for every
-    product of the family -/
-theorem genericProduct_add_left (w : Nat → Nat → Int) {a b : MV} (c : MV)
-    (ha : NodupKeys a) (hb : NodupKeys b) :
-    mvEq (genericProduct w (mvAdd a b) c) (mvAdd (genericProduct w a c) (genericProduct w b c))
-      = true := by
-  obtain ⟨hp, hs⟩ := mvAdd_spec ha hb
-  obtain ⟨hp', hs'⟩ := mvAdd_spec (genericProduct_pruned w a c).1 (genericProduct_pruned w b c).1
-  rw [mvEq_iff_coeffwise (genericProduct_pruned _ _ _) hp']
-  intro k
-  rw [hs' k, coeff_genericProduct_lin_left w 1 1 c hp.1 ha hb (by intro k; rw [hs k]; ring)]
-  ring
-
-/-- (h) right distributivity as Python's `==` sees it:  `A * (B + C) == A * B + A * C` -/
-theorem genericProduct_add_right (w : Nat → Nat → Int) (a : MV) {b c : MV}
-    (hb : NodupKeys b) (hc : NodupKeys c) :
-    mvEq (genericProduct w a (mvAdd b c)) (mvAdd (genericProduct w a b) (genericProduct w a c))
-      = true := by
-  obtain ⟨hp, hs⟩ := mvAdd_spec hb hc
-  obtain ⟨hp', hs'⟩ := mvAdd_spec (genericProduct_pruned w a b).1 (genericProduct_pruned w a c).1
-  rw [mvEq_iff_coeffwise (genericProduct_pruned _ _ _) hp']
-  intro k
-  rw [hs' k, coeff_genericProduct_lin_right w a 1 1 hp.1 hb hc (by intro k; rw [hs k]; ring)]
-  ring
-
+theorem coeff_mvSubZ {z : R → Bool} (hz : ZSound z) {a b : MVOf R} (ha : NodupKeys a)
+    (hb : NodupKeys b) (k : Nat) : coeff (mvSubZ z a b) k = coeff a k - coeff b k := by
+  unfold mvSubZ
+  rw [coeff_mvAddZ hz ha (nodupKeys_mvNeg hb), coeff_mvNeg]; ring
 
 /-! ## the outer product is associative as well -/
 
@@ -754,49 +850,38 @@ theorem disjoint3_iff : ∀ (n a b c : Nat), a + b + c ≤ n →
       rcases Nat.mod_two_eq_zero_or_one c with h3 | h3 <;>
       simp only [h1, h2, h3] <;> simp <;> tauto
 
-theorem cocycle_wOuter (g : Nat → Int) : Cocycle (wOuter g) := by
+theorem cocycle_wOuter (g : Nat → R) : Cocycle (wOuter g) := by
   intro a b c
   have h := disjoint3_iff _ a b c (Nat.le_refl _)
-  have hs := sign_cocycle a b c
+  have hs : (reorderSignR a b : R) * reorderSignR (a ^^^ b) c
+      = reorderSignR b c * reorderSignR a (b ^^^ c) := by
+    simp only [reorderSignR_eq_cast, ← Int.cast_mul, sign_cocycle]
   unfold wOuter
   by_cases h1 : a &&& b = 0 ∧ (a ^^^ b) &&& c = 0
   · have h2 := h.1 h1
     simp only [h1.1, h1.2, h2.1, h2.2, ne_eq, not_true_eq_false, ↓reduceIte, one_mul]
     exact hs
   · have h2 : ¬ (b &&& c = 0 ∧ a &&& (b ^^^ c) = 0) := fun e => h1 (h.2 e)
-    have l : (if a &&& b ≠ 0 then (0 : Int) else 1) * reorderSign a b
-        * ((if (a ^^^ b) &&& c ≠ 0 then (0 : Int) else 1) * reorderSign (a ^^^ b) c) = 0 := by
+    have l : (if a &&& b ≠ 0 then (0 : R) else 1) * reorderSignR a b
+        * ((if (a ^^^ b) &&& c ≠ 0 then (0 : R) else 1) * reorderSignR (a ^^^ b) c) = 0 := by
       by_cases e1 : a &&& b = 0
       · have e2 : (a ^^^ b) &&& c ≠ 0 := fun e => h1 ⟨e1, e⟩
         simp [e2]
       · simp [e1]
-    have r : (if b &&& c ≠ 0 then (0 : Int) else 1) * reorderSign b c
-        * ((if a &&& (b ^^^ c) ≠ 0 then (0 : Int) else 1) * reorderSign a (b ^^^ c)) = 0 := by
+    have r : (if b &&& c ≠ 0 then (0 : R) else 1) * reorderSignR b c
+        * ((if a &&& (b ^^^ c) ≠ 0 then (0 : R) else 1) * reorderSignR a (b ^^^ c)) = 0 := by
       by_cases e1 : b &&& c = 0
       · have e2 : a &&& (b ^^^ c) ≠ 0 := fun e => h2 ⟨e1, e⟩
         simp [e2]
       · simp [e1]
     rw [l, r]
 
-/-- (h) `(A ^ B) ^ C == A ^ (B ^ C)` for the outer product as coded -/
-theorem mvOuter_assoc (g : Nat → Int) (a b c : MV) :
-    mvEq (mvOuter g (mvOuter g a b) c) (mvOuter g a (mvOuter g b c)) = true :=
-  genericProduct_assoc (cocycle_wOuter g) a b c
-
 
 /-! ## `rev` and `invol` on multivectors -/
 
-theorem lsum_map {α β : Type} (f : β → Int) (h : α → β) (l : List α) :
-    lsum f (l.map h) = lsum (fun x => f (h x)) l := by
-  induction l with
-  | nil => rfl
-  | cons x xs ih => simp only [List.map_cons, lsum, ih]
-
-theorem lsum_comm {α β : Type} (f : α → β → Int) (l₁ : List α) (l₂ : List β) :
-    lsum (fun x => lsum (fun y => f x y) l₂) l₁ = lsum (fun y => lsum (fun x => f x y) l₁) l₂ := by
-  induction l₁ with
-  | nil => simp [lsum, lsum_zero]
-  | cons x xs ih => simp only [lsum, ih, lsum_add]
+/-- the integer signs `±1` as ring elements -/
+theorem intCast_sgn_mul_self (n : Nat) : ((sgn n : Int) : R) * ((sgn n : Int) : R) = 1 := by
+  rw [← Int.cast_mul, sgn_mul_self]; simp
 
 theorem revSign_mul_self (a : Nat) : revSign a * revSign a = 1 := by
   rw [revSign_eq_sgn]; exact sgn_mul_self _
@@ -804,14 +889,16 @@ theorem revSign_mul_self (a : Nat) : revSign a * revSign a = 1 := by
 theorem involSign_mul_self (a : Nat) : involSign a * involSign a = 1 := by
   rw [involSign_eq_sgn]; exact sgn_mul_self _
 
-theorem rev_eq_map (a : MV) : rev a = a.map fun p => (p.1, revSign p.1 * p.2) := by
+theorem rev_eq_map (a : MVOf R) :
+    rev a = a.map fun p => (p.1, ((revSign p.1 : Int) : R) * p.2) := by
   unfold rev
   apply List.map_congr_left
   rintro ⟨bits, c⟩ _
   simp only [revSign]
   split <;> simp
 
-theorem invol_eq_map (a : MV) : invol a = a.map fun p => (p.1, involSign p.1 * p.2) := by
+theorem invol_eq_map (a : MVOf R) :
+    invol a = a.map fun p => (p.1, ((involSign p.1 : Int) : R) * p.2) := by
   unfold invol
   apply List.map_congr_left
   rintro ⟨bits, c⟩ _
@@ -819,12 +906,16 @@ theorem invol_eq_map (a : MV) : invol a = a.map fun p => (p.1, involSign p.1 * p
   split <;> simp
 
 /-- a blade-wise sign change `(bits, c) ↦ (bits, σ bits * c)` -/
-def signMap (σ : Nat → Int) (a : MV) : MV := a.map fun p => (p.1, σ p.1 * p.2)
+def signMap (σ : Nat → R) (a : MVOf R) : MVOf R := a.map fun p => (p.1, σ p.1 * p.2)
 
-theorem keys_signMap (σ : Nat → Int) (a : MV) : keys (signMap σ a) = keys a := by
+theorem keys_signMap (σ : Nat → R) (a : MVOf R) : keys (signMap σ a) = keys a := by
   unfold signMap keys; simp [Function.comp_def]
 
-theorem coeff_signMap (σ : Nat → Int) (a : MV) (k : Nat) :
+theorem nodupKeys_signMap (σ : Nat → R) {a : MVOf R} (ha : NodupKeys a) :
+    NodupKeys (signMap σ a) := by
+  unfold NodupKeys; rw [keys_signMap]; exact ha
+
+theorem coeff_signMap (σ : Nat → R) (a : MVOf R) (k : Nat) :
     coeff (signMap σ a) k = σ k * coeff a k := by
   induction a with
   | nil => simp [signMap]
@@ -836,9 +927,9 @@ theorem coeff_signMap (σ : Nat → Int) (a : MV) (k : Nat) :
     · next h => subst h; rfl
     · rfl
 
-theorem pruned_signMap {σ : Nat → Int} (hσ : ∀ k, σ k * σ k = 1) {a : MV} (ha : Pruned a) :
+theorem pruned_signMap {σ : Nat → R} (hσ : ∀ k, σ k * σ k = 1) {a : MVOf R} (ha : Pruned a) :
     Pruned (signMap σ a) := by
-  refine ⟨by unfold NodupKeys; rw [keys_signMap]; exact ha.1, ?_⟩
+  refine ⟨nodupKeys_signMap σ ha.1, ?_⟩
   intro p hp
   unfold signMap at hp
   obtain ⟨q, hq, rfl⟩ := List.mem_map.1 hp
@@ -850,27 +941,52 @@ theorem pruned_signMap {σ : Nat → Int} (hσ : ∀ k, σ k * σ k = 1) {a : MV
   rw [h0, mul_zero] at this
   exact h1 this
 
-theorem coeff_genericProduct_signMap (w : Nat → Nat → Int) (σ : Nat → Int) (a b : MV) (k : Nat) :
-    coeff (genericProduct w (signMap σ a) (signMap σ b)) k
+theorem rev_eq_signMap (a : MVOf R) : rev a = signMap (fun k => ((revSign k : Int) : R)) a :=
+  rev_eq_map a
+
+theorem invol_eq_signMap (a : MVOf R) : invol a = signMap (fun k => ((involSign k : Int) : R)) a :=
+  invol_eq_map a
+
+theorem coeff_rev (a : MVOf R) (k : Nat) : coeff (rev a) k = ((revSign k : Int) : R) * coeff a k := by
+  rw [rev_eq_signMap, coeff_signMap]
+
+theorem coeff_invol (a : MVOf R) (k : Nat) :
+    coeff (invol a) k = ((involSign k : Int) : R) * coeff a k := by
+  rw [invol_eq_signMap, coeff_signMap]
+
+theorem keys_rev (a : MVOf R) : keys (rev a) = keys a := by rw [rev_eq_signMap, keys_signMap]
+
+theorem nodupKeys_rev {a : MVOf R} (ha : NodupKeys a) : NodupKeys (rev a) := by
+  unfold NodupKeys; rw [keys_rev]; exact ha
+
+theorem revSignR_mul_self (k : Nat) : ((revSign k : Int) : R) * ((revSign k : Int) : R) = 1 := by
+  rw [← Int.cast_mul, revSign_mul_self]; simp
+
+theorem involSignR_mul_self (k : Nat) :
+    ((involSign k : Int) : R) * ((involSign k : Int) : R) = 1 := by
+  rw [← Int.cast_mul, involSign_mul_self]; simp
+
+theorem coeff_genericProductZ_signMap {z : R → Bool} (hz : ZSound z) (w : Nat → Nat → R)
+    (σ : Nat → R) (a b : MVOf R) (k : Nat) :
+    coeff (genericProductZ z w (signMap σ a) (signMap σ b)) k
       = lsum (fun s => lsum (fun o =>
           if s.1 ^^^ o.1 = k
-          then w s.1 o.1 * reorderSign s.1 o.1 * (σ s.1 * s.2) * (σ o.1 * o.2) else 0) b) a := by
-  rw [coeff_genericProduct]
+          then w s.1 o.1 * reorderSignR s.1 o.1 * (σ s.1 * s.2) * (σ o.1 * o.2) else 0) b) a := by
+  rw [coeff_genericProductZ hz]
   unfold signMap
   rw [lsum_map]
   apply lsum_congr; intro s _
   rw [lsum_map]
 
-/-- (g) anti-automorphism, generic form: if `σ (a ⊕ b) sign(a,b) = sign(b,a) σ b σ a` on blades,
-    then `σ(A · B) == σ(B) ·ᵒᵖ σ(A)` where `·ᵒᵖ` uses the transposed weight -/
-theorem signMap_antiauto (w : Nat → Nat → Int) {σ : Nat → Int} (hσ : ∀ k, σ k * σ k = 1)
-    (h : ∀ a b, σ (a ^^^ b) * reorderSign a b = reorderSign b a * (σ b * σ a)) (a b : MV) :
-    mvEq (signMap σ (genericProduct w a b))
-      (genericProduct (fun x y => w y x) (signMap σ b) (signMap σ a)) = true := by
-  rw [mvEq_iff_coeffwise (pruned_signMap hσ (genericProduct_pruned _ _ _))
-    (genericProduct_pruned _ _ _)]
-  intro k
-  rw [coeff_signMap, coeff_genericProduct, coeff_genericProduct_signMap, lsum_comm,
+/-- (g) anti-automorphism, generic form (coefficient level, sound zero test): if
+    `σ (a ⊕ b) sign(a,b) = sign(b,a) σ b σ a` on blades, then `σ(A · B) = σ(B) ·ᵒᵖ σ(A)` where `·ᵒᵖ`
+    uses the transposed weight -/
+theorem coeff_signMap_antiauto {z : R → Bool} (hz : ZSound z) (w : Nat → Nat → R) {σ : Nat → R}
+    (h : ∀ a b, σ (a ^^^ b) * reorderSignR a b = reorderSignR b a * (σ b * σ a))
+    (a b : MVOf R) (k : Nat) :
+    coeff (signMap σ (genericProductZ z w a b)) k
+      = coeff (genericProductZ z (fun x y => w y x) (signMap σ b) (signMap σ a)) k := by
+  rw [coeff_signMap, coeff_genericProductZ hz, coeff_genericProductZ_signMap hz, lsum_comm,
     ← lsum_mul_left]
   apply lsum_congr; intro s _
   rw [← lsum_mul_left]
@@ -882,15 +998,12 @@ theorem signMap_antiauto (w : Nat → Nat → Int) {σ : Nat → Int} (hσ : ∀
     linear_combination (w o.1 s.1 * s.2 * o.2) * h o.1 s.1
   · simp
 
-/-- automorphism, generic form -/
-theorem signMap_auto (w : Nat → Nat → Int) {σ : Nat → Int} (hσ : ∀ k, σ k * σ k = 1)
-    (h : ∀ a b, σ (a ^^^ b) = σ a * σ b) (a b : MV) :
-    mvEq (signMap σ (genericProduct w a b))
-      (genericProduct w (signMap σ a) (signMap σ b)) = true := by
-  rw [mvEq_iff_coeffwise (pruned_signMap hσ (genericProduct_pruned _ _ _))
-    (genericProduct_pruned _ _ _)]
-  intro k
-  rw [coeff_signMap, coeff_genericProduct, coeff_genericProduct_signMap, ← lsum_mul_left]
+/-- automorphism, generic form (coefficient level, sound zero test) -/
+theorem coeff_signMap_auto {z : R → Bool} (hz : ZSound z) (w : Nat → Nat → R) {σ : Nat → R}
+    (h : ∀ a b, σ (a ^^^ b) = σ a * σ b) (a b : MVOf R) (k : Nat) :
+    coeff (signMap σ (genericProductZ z w a b)) k
+      = coeff (genericProductZ z w (signMap σ a) (signMap σ b)) k := by
+  rw [coeff_signMap, coeff_genericProductZ hz, coeff_genericProductZ_signMap hz, ← lsum_mul_left]
   apply lsum_congr; intro s _
   rw [← lsum_mul_left]
   apply lsum_congr; intro o _
@@ -900,208 +1013,103 @@ theorem signMap_auto (w : Nat → Nat → Int) {σ : Nat → Int} (hσ : ∀ k, 
     rw [h s.1 o.1]; ring
   · simp
 
-/-- (g) `(A * B).rev() == B.rev() * A.rev()` -/
-theorem rev_mvMul (g : Nat → Int) (a b : MV) :
-    mvEq (rev (mvMul g a b)) (mvMul g (rev b) (rev a)) = true := by
-  have := signMap_antiauto (wGeometric g) revSign_mul_self rev_antiauto_sign a b
+theorem revSignR_antiauto (a b : Nat) :
+    ((revSign (a ^^^ b) : Int) : R) * reorderSignR a b
+      = reorderSignR b a * (((revSign b : Int) : R) * ((revSign a : Int) : R)) := by
+  simp only [reorderSignR_eq_cast, ← Int.cast_mul, rev_antiauto_sign]
+
+theorem involSignR_auto (a b : Nat) :
+    ((involSign (a ^^^ b) : Int) : R) = ((involSign a : Int) : R) * ((involSign b : Int) : R) := by
+  rw [← Int.cast_mul, invol_auto_sign]
+
+/-- (g) `(A * B).rev() = B.rev() * A.rev()`, coefficient level, sound zero test -/
+theorem coeff_rev_mul {z : R → Bool} (hz : ZSound z) (g : Nat → R) (a b : MVOf R) (k : Nat) :
+    coeff (rev (genericProductZ z (wGeometric g) a b)) k
+      = coeff (genericProductZ z (wGeometric g) (rev b) (rev a)) k := by
+  have := coeff_signMap_antiauto hz (wGeometric g) (σ := fun k => ((revSign k : Int) : R))
+    revSignR_antiauto a b k
   have hw : (fun x y => wGeometric g y x) = wGeometric g := by
     funext x y; exact wGeometric_comm g y x
   rw [hw] at this
-  simpa [mvMul, rev_eq_map, signMap] using this
+  simpa only [rev_eq_signMap] using this
 
-/-- (g) `(A ^ B).rev() == B.rev() ^ A.rev()` -/
-theorem rev_mvOuter (g : Nat → Int) (a b : MV) :
-    mvEq (rev (mvOuter g a b)) (mvOuter g (rev b) (rev a)) = true := by
-  have := signMap_antiauto (wOuter g) revSign_mul_self rev_antiauto_sign a b
+/-- (g) `(A ^ B).rev() = B.rev() ^ A.rev()` -/
+theorem coeff_rev_outer {z : R → Bool} (hz : ZSound z) (g : Nat → R) (a b : MVOf R) (k : Nat) :
+    coeff (rev (genericProductZ z (wOuter g) a b)) k
+      = coeff (genericProductZ z (wOuter g) (rev b) (rev a)) k := by
+  have := coeff_signMap_antiauto hz (wOuter g) (σ := fun k => ((revSign k : Int) : R))
+    revSignR_antiauto a b k
   have hw : (fun x y => wOuter g y x) = wOuter g := by
     funext x y; unfold wOuter; rw [Nat.and_comm]
   rw [hw] at this
-  simpa [mvOuter, rev_eq_map, signMap] using this
+  simpa only [rev_eq_signMap] using this
 
-/-- (g) `rev` exchanges the two contractions:  `(A << B).rev() == B.rev() >> A.rev()` -/
-theorem rev_mvLeftContraction (g : Nat → Int) (a b : MV) :
-    mvEq (rev (mvLeftContraction g a b)) (mvRightContraction g (rev b) (rev a)) = true := by
-  have := signMap_antiauto (wLeftContraction g) revSign_mul_self rev_antiauto_sign a b
+/-- (g) `rev` exchanges the two contractions:  `(A << B).rev() = B.rev() >> A.rev()` -/
+theorem coeff_rev_leftContraction {z : R → Bool} (hz : ZSound z) (g : Nat → R) (a b : MVOf R)
+    (k : Nat) :
+    coeff (rev (genericProductZ z (wLeftContraction g) a b)) k
+      = coeff (genericProductZ z (wRightContraction g) (rev b) (rev a)) k := by
+  have := coeff_signMap_antiauto hz (wLeftContraction g)
+    (σ := fun k => ((revSign k : Int) : R)) revSignR_antiauto a b k
   have hw : (fun x y => wLeftContraction g y x) = wRightContraction g := by
     funext x y; unfold wLeftContraction wRightContraction; rw [Nat.and_comm]
   rw [hw] at this
-  simpa [mvLeftContraction, mvRightContraction, rev_eq_map, signMap] using this
+  simpa only [rev_eq_signMap] using this
 
-/-- (g) `(A · B).invol() == A.invol() · B.invol()` for every product of the family -/
-theorem invol_genericProduct (w : Nat → Nat → Int) (a b : MV) :
-    mvEq (invol (genericProduct w a b)) (genericProduct w (invol a) (invol b)) = true := by
-  have := signMap_auto w involSign_mul_self invol_auto_sign a b
-  simpa [invol_eq_map, signMap] using this
+/-- (g) `(A · B).invol() = A.invol() · B.invol()` for every product of the family -/
+theorem coeff_invol_genericProductZ {z : R → Bool} (hz : ZSound z) (w : Nat → Nat → R)
+    (a b : MVOf R) (k : Nat) :
+    coeff (invol (genericProductZ z w a b)) k
+      = coeff (genericProductZ z w (invol a) (invol b)) k := by
+  have := coeff_signMap_auto hz w (σ := fun k => ((involSign k : Int) : R)) involSignR_auto a b k
+  simpa only [invol_eq_signMap] using this
+
+theorem pruned_rev {a : MVOf R} (ha : Pruned a) : Pruned (rev a) := by
+  rw [rev_eq_signMap]; exact pruned_signMap revSignR_mul_self ha
+
+theorem pruned_invol {a : MVOf R} (ha : Pruned a) : Pruned (invol a) := by
+  rw [invol_eq_signMap]; exact pruned_signMap involSignR_mul_self ha
 
 /-- `rev` is an involution -/
-theorem rev_rev (a : MV) : rev (rev a) = a := by
+theorem rev_rev (a : MVOf R) : rev (rev a) = a := by
   rw [rev_eq_map, rev_eq_map, List.map_map]
   conv => rhs; rw [← List.map_id a]
   apply List.map_congr_left
   rintro ⟨k, v⟩ _
   simp only [Function.comp, id]
-  rw [← mul_assoc, revSign_mul_self, one_mul]
+  rw [← mul_assoc, revSignR_mul_self, one_mul]
 
-/-! ## `norm_squared` and `inv` of a single blade -/
+/-- `invol` is an involution -/
+theorem invol_invol (a : MVOf R) : invol (invol a) = a := by
+  rw [invol_eq_map, invol_eq_map, List.map_map]
+  conv => rhs; rw [← List.map_id a]
+  apply List.map_congr_left
+  rintro ⟨k, v⟩ _
+  simp only [Function.comp, id]
+  rw [← mul_assoc, involSignR_mul_self, one_mul]
 
-theorem normSquared_blade (g : Nat → Int) (bits : Nat) (c : Int) :
-    normSquared g [(bits, c)] = some (sharedMetricCoeff g bits * c * c) := by
-  unfold normSquared scalarProduct
-  rw [rev_eq_map]
-  simp only [List.map_cons, List.map_nil]
-  rw [genericProduct_blades]
-  have hw : wScalar g bits bits = sharedMetricCoeff g bits := by simp [wScalar]
-  have hv : wScalar g bits bits * reorderSign bits bits * (revSign bits * c) * c
-      = sharedMetricCoeff g bits * c * c := by
-    rw [hw, ← revSign_eq_reorderSign_self]
-    linear_combination (sharedMetricCoeff g bits * c * c) * revSign_mul_self bits
-  rw [hv, hw]
-  split
-  · next h =>
-    rcases h with h | h
-    · simp [asScalar, h]
-    · simp [asScalar, h]
-  · simp [asScalar]
+/-! ## products of single blades at multivector level -/
 
-/-- `MultiVector.inv` of a one-term multivector `{bits: c}`, in closed form -/
-theorem inv_blade_eq (g : Nat → Int) (dims bits : Nat) (c : Int) :
-    inv g dims [(bits, c)] =
-      if sharedMetricCoeff g bits * c * c = 0 then .zeroDivision
-      else .ok [(bits, revSign bits * c)] (sharedMetricCoeff g bits * c * c) := by
-  unfold inv
-  rw [normSquared_blade]
-  simp only
-  split
-  · rfl
-  · congr 2
-    unfold revSign
-    simp only
-    split <;> simp_all
+/-- `_generic_product` of two one-term multivectors `{a: x}` and `{b: y}` -/
+theorem genericProductZ_blades (z : R → Bool) (w : Nat → Nat → R) (a b : Nat) (x y : R) :
+    genericProductZ z w [(a, x)] [(b, y)] =
+      if z (w a b) = true ∨ z (w a b * reorderSignR a b * x * y) = true then []
+      else [(a ^^^ b, w a b * reorderSignR a b * x * y)] := by
+  by_cases h1 : z (w a b) = true
+  · simp [genericProductZ, h1]
+  · by_cases h2 : z (w a b * reorderSignR a b * x * y) = true
+    · simp [genericProductZ, h1, h2, dictAccumZ, dictGet, dictDel]
+    · simp [genericProductZ, h1, h2, dictAccumZ, dictGet, dictSet]
 
-/-- `blade_inv`: whenever `inv` succeeds on a blade, the result `numer / denom` is a two-sided
-    inverse for the geometric product: `A * numer == denom == numer * A`, `denom ≠ 0` -/
-theorem blade_inv (g : Nat → Int) (dims bits : Nat) (c : Int) (numer : MV) (denom : Int)
-    (h : inv g dims [(bits, c)] = .ok numer denom) :
-    denom ≠ 0 ∧ denom = sharedMetricCoeff g bits * c * c ∧
-    mvMul g [(bits, c)] numer = [(0, denom)] ∧ mvMul g numer [(bits, c)] = [(0, denom)] := by
-  rw [inv_blade_eq] at h
-  split at h
-  · cases h
-  · next hne =>
-    injection h with h1 h2
-    subst h1 h2
-    refine ⟨hne, rfl, ?_, ?_⟩
-    · unfold mvMul
-      rw [genericProduct_blades, wGeometric_eq_smc, Nat.and_self, Nat.xor_self,
-        ← revSign_eq_reorderSign_self]
-      have hv : sharedMetricCoeff g bits * revSign bits * c * (revSign bits * c)
-          = sharedMetricCoeff g bits * c * c := by
-        linear_combination (sharedMetricCoeff g bits * c * c) * revSign_mul_self bits
-      rw [hv]
-      have hw : sharedMetricCoeff g bits ≠ 0 := by
-        intro e; rw [e] at hne; simp at hne
-      simp [hw, hne]
-    · unfold mvMul
-      rw [genericProduct_blades, wGeometric_eq_smc, Nat.and_self, Nat.xor_self,
-        ← revSign_eq_reorderSign_self]
-      have hv : sharedMetricCoeff g bits * revSign bits * (revSign bits * c) * c
-          = sharedMetricCoeff g bits * c * c := by
-        linear_combination (sharedMetricCoeff g bits * c * c) * revSign_mul_self bits
-      rw [hv]
-      have hw : sharedMetricCoeff g bits ≠ 0 := by
-        intro e; rw [e] at hne; simp at hne
-      simp [hw, hne]
+/-- the same with the deciding zero test -/
+theorem genericProduct_blades [DecidableEq R] (w : Nat → Nat → R) (a b : Nat) (x y : R) :
+    genericProduct w [(a, x)] [(b, y)] =
+      if w a b = 0 ∨ w a b * reorderSignR a b * x * y = 0 then []
+      else [(a ^^^ b, w a b * reorderSignR a b * x * y)] := by
+  unfold genericProduct
+  rw [genericProductZ_blades]
+  simp [isZeroD]
 
-
-/-! ## the zero multivector and scalars: how `==`, `bool` and stored zeros interact -/
-
-/-- a pruned dict denoting the zero function is the empty dict -/
-theorem pruned_eq_nil {d : MV} (hd : Pruned d) (h : ∀ k, coeff d k = 0) : d = [] := by
-  cases d with
-  | nil => rfl
-  | cons p d =>
-    exfalso
-    have : p.1 ∈ keys (p :: d) := by simp
-    exact (mem_keys_iff_coeff_ne_zero hd p.1).1 this (h p.1)
-
-/-- `MultiVector(0)` is the empty dict, so products with it are empty -/
-theorem genericProduct_ofScalar_zero (w : Nat → Nat → Int) (a : MV) :
-    genericProduct w (ofScalar 0) a = [] ∧ genericProduct w a (ofScalar 0) = [] := by
-  constructor
-  · apply pruned_eq_nil (genericProduct_pruned _ _ _)
-    intro k
-    rw [coeff_genericProduct]
-    simp [ofScalar, lsum]
-  · apply pruned_eq_nil (genericProduct_pruned _ _ _)
-    intro k
-    rw [coeff_genericProduct]
-    simp [ofScalar, lsum, lsum_zero]
-
-/-- every scalar constructor result is pruned -/
-theorem ofScalar_pruned (x : Int) : Pruned (ofScalar x) := by
-  unfold ofScalar
-  split
-  · exact pruned_nil
-  · rename_i hx
-    refine ⟨by simp [NodupKeys, keys], ?_⟩
-    intro p hp
-    simp at hp
-    subst hp
-    exact hx
-
-/-- on a pruned dict — in particular on every result of `+`, `-`, and of the six products —
-    `x == 0` is exactly "every coefficient is zero" -/
-theorem mvEqScalar_zero_iff_of_pruned {a : MV} (ha : Pruned a) :
-    mvEqScalar a 0 = true ↔ ∀ k, coeff a k = 0 := by
-  unfold mvEqScalar
-  rw [mvEq_iff_coeffwise ha (ofScalar_pruned 0)]
-  simp [ofScalar, coeff, dictGet]
-
-/-- `bool(x)` on a pruned dict is the documented "has a non-zero coefficient" -/
-theorem mvBool_iff_of_pruned {a : MV} (ha : Pruned a) :
-    mvBool a = true ↔ ∃ k, coeff a k ≠ 0 := by
-  cases a with
-  | nil => simp [mvBool]
-  | cons p d =>
-    simp only [mvBool, List.isEmpty_cons, Bool.not_false, true_iff]
-    exact ⟨p.1, (mem_keys_iff_coeff_ne_zero ha p.1).1 (by simp)⟩
-
-/-! ## `permutation_sign` and `bits_and_sign` -/
-
-theorem permSignLoop_range (n : Nat) : ∀ (m i : Nat) (s : Int), i + m ≤ n →
-    permSignLoop m i (List.range n) s = some s := by
-  intro m
-  induction m with
-  | zero => intro i s _; rfl
-  | succ m ih =>
-    intro i s h
-    have hi : i < n := by omega
-    have hf : findFrom (List.range n) i ((List.range n).length + 1) i = some i := by
-      simp [findFrom, hi]
-    simp only [permSignLoop, hf, ne_eq, not_true_eq_false, ↓reduceIte]
-    exact ih (i + 1) s (by omega)
-
-/-- the identity permutation is even -/
-theorem permutationSign_range (n : Nat) : permutationSign? (List.range n) = some 1 := by
-  unfold permutationSign?
-  rw [List.length_range]
-  exact permSignLoop_range n n 0 1 (by omega)
-
-/-- the tuple-key constructor agrees with the product: `MultiVector({(i, j): c})` stores
-    `e_i e_j` with the sign `canonical_reordering_sign` gives to that product -/
-theorem bitsAndSign_pair {i j : Nat} (h : i ≠ j) :
-    bitsAndSign [i, j] = (2 ^ i ||| 2 ^ j, reorderSign (2 ^ i) (2 ^ j)) := by
-  have hs : reorderSign (2 ^ i) (2 ^ j) = if j < i then -1 else 1 := by
-    rw [reorderSign_eq_sgn, reorderSignExp_two_pow]; split <;> rfl
-  rw [hs]
-  unfold bitsAndSign
-  by_cases hlt : i < j
-  · have h1 : ¬ j < i := by omega
-    simp [sortPairs, enumFrom', insertPair, hlt, h1]
-    decide
-  · have h1 : j < i := by omega
-    have h2 : ¬ i = j := h
-    simp [sortPairs, enumFrom', insertPair, hlt, h1, h2]
-    decide
+end Ring
 
 end PV.GA
